@@ -178,14 +178,19 @@ def run_case(case):
             if a.digest != b.digest:
                 bad("check_alters_solve", f"digest with check {a.digest} != without {b.digest}")
             # time spent in the (expensive) check is not charged to the solve's deadline: virtual clock on which every
-            # callback evaluation takes one second; deadline = 1.25 x the duration of the solve alone
+            # callback evaluation takes one second; deadline = duration of the solve alone + half the duration of the check
             from pgfmc.drive.problems import TickingProblem
             from pgfmc.drive.run import VirtualClock
             ck0 = VirtualClock()
             tp0 = TickingProblem(UserProblem(spec), ck0)
             r0 = run_solve(tp0, make_params(cfg3, sc), spec["x0"], y0, clock=ck0)
-            if r0.result is not None and r0.result.status.name == "Optimal" and tp0.evals >= 8:
-                limit = 1.25 * tp0.evals
+            ck1 = VirtualClock()
+            tp1 = TickingProblem(UserProblem(spec), ck1)
+            run_solve(tp1, make_params(cfg2, sc), spec["x0"], y0, clock=ck1)
+            check_cost = tp1.evals - tp0.evals   # evaluations spent in the derivative check
+            if r0.result is not None and r0.result.status.name in ("Optimal", "IterationLimit") and tp0.evals >= 8 and check_cost >= 4:
+                # the solve alone fits exactly; half of the check's duration is the only slack
+                limit = tp0.evals + 0.5 * check_cost
                 outs = []
                 for c in (cfg3, cfg2):
                     ck = VirtualClock()
@@ -193,7 +198,7 @@ def run_case(case):
                     cc = dict(c); cc["params"] = {"time_limit": limit}
                     outs.append(run_solve(tp, make_params(cc, sc), spec["x0"], y0, clock=ck))
                 if outs[0].digest != outs[1].digest:
-                    bad("check_charged_to_deadline", f"with a deadline of 1.25x the solve's own duration the run with derivative check ended "
+                    bad("check_charged_to_deadline", f"with a deadline of the solve's own duration plus half the check's the run with derivative check ended "
                         f"{outs[1].result.status.name if outs[1].result else outs[1].exc} but the run without check {outs[0].result.status.name if outs[0].result else outs[0].exc}")
         return {"outcome": "correct-accepted" if not viol else "violating", "key": f"{spec['tag']}|{case['si']}|none",
                 "violations": viol, "stats": {"fd": worst}}
